@@ -1263,6 +1263,27 @@ def _b_seq(kind):
     return f
 
 
+def _b_set(it, args, kw):
+    """set(x) / frozenset(x): concrete elements lose their duplicates (first occurrences kept, as a tuple); with symbolic elements the
+    elements are kept as they are (two symbols may or may not be equal: rules that depend on it must not iterate such a set)"""
+    if not args:
+        return ()
+    try:
+        vals = it.iterate(args[0], None)
+    except Undecidable:
+        return Sym('set(%s)' % show(args[0]), struct=('call', 'set', tuple(args), {}))
+    if is_concrete(vals):
+        out = []
+        for v in vals:
+            try:
+                if v not in out:
+                    out.append(v)
+            except TypeError:
+                out.append(v)
+        return tuple(out)
+    return tuple(vals)
+
+
 def _b_dict(it, args, kw):
     d = {}
     if args:
@@ -1397,7 +1418,7 @@ _BUILTIN_FUNCS = {
     'len': _b_len, 'range': _b_range, 'slice': _b_slice, 'next': _b_next, 'iter': _b_iter, 'tuple': _b_seq(tuple), 'list': _b_seq(list), 'dict': _b_dict, 'enumerate': _b_enumerate,
     'zip': _b_zip, 'map': _b_map, 'min': _b_minmax(min), 'max': _b_minmax(max), 'isinstance': _b_isinstance, 'int': _b_conv(int),
     'float': _b_conv(float), 'str': _b_conv(str), 'bool': _b_conv(bool), 'sorted': _b_sorted, 'sum': _b_sum, 'callable': _b_callable,
-    'abs': _b_conv(abs), 'reversed': lambda it, a, k: list(reversed(it.iterate(a[0], None))), 'set': _b_seq(tuple),
+    'abs': _b_conv(abs), 'reversed': lambda it, a, k: list(reversed(it.iterate(a[0], None))), 'set': _b_set, 'frozenset': _b_set,
 }
 
 
